@@ -230,7 +230,7 @@ CLAIMED = {
             "1 - exp(-NTU) at c = 0; NEVER above counter flow for every arrangement except the two listed findings (cross-flow one/both "
             "mixed, shell-and-tube, parallel flow, any pass count; mean-value-theorem proofs, no interval); range (0,1) for all eight "
             "arrangements incl. the 20-term series; secant post-condition; LMTD between min and mean, refusal, symmetry (exact "
-            "when both orders take the same isclose branch). D15 and D34 are refuted theorems with interval-checked witnesses. Tie: 676 "
+            "when both orders take the same isclose branch); the four-temperature entry point compute_LMTD_from_ts: accepted/refused cases, equals the two-difference form, translation invariant. D15 and D34 are refuted theorems with interval-checked witnesses. Tie: 676 "
             "interval proofs |f(x) - python value| <= 1e-9 regenerate on every run, dispatch observed by line tracing, and a numeric sweep "
             "(arrangement x label form x 40 NTU x 21 c x 4 passes) judged in coqc on exact rationals supports the search for failing inputs.",
             "Axioms: the standard library's real-number axioms plus PrimInt63/Uint63 primitives used by Interval in the two refutations. "
